@@ -39,6 +39,7 @@ type Pipe struct {
 	frags   [][]byte
 	wclosed bool
 	rclosed bool
+	wfail   bool // writes fail although the reading side keeps what it has (FailWrites)
 	nw, nr  int
 	read    int64
 }
@@ -63,7 +64,7 @@ func (p *Pipe) Write(b []byte) (int, error) {
 	for len(p.frags) > p.Cap && !p.rclosed {
 		p.cond.Wait()
 	}
-	if p.rclosed {
+	if p.rclosed || p.wfail {
 		if p.S != nil {
 			p.S.Emit(g, "t."+p.Name+".wfail", map[string]any{})
 		}
@@ -222,6 +223,14 @@ func (p *Pipe) CloseRead() {
 		p.S.Emit(g, "t."+p.Name+".rclose", map[string]any{})
 	}
 	p.rclosed = true // fragments in flight stay: a writer still waiting for them to be taken fails
+	p.cond.Broadcast()
+	p.mu.Unlock()
+}
+
+// FailWrites makes every later Write fail; what was written before stays readable.
+func (p *Pipe) FailWrites() {
+	p.mu.Lock()
+	p.wfail = true
 	p.cond.Broadcast()
 	p.mu.Unlock()
 }
